@@ -128,6 +128,9 @@ func (it *hostIter) Value() ugo.Object {
 // unless the world downgrades panics, in which case the text the recovered
 // panic would carry is returned as a plain error (only possible where the
 // call site has an error result; otherwise the downgraded fault is a no-op).
+// Raise performs a fault of the given kind outside the fault tables (engines' own host functions).
+func (w *World) Raise(kind FaultKind, id, occ int) error { return w.raise(kind, id, occ, true) }
+
 func (w *World) raise(kind FaultKind, id, occ int, canReturnError bool) (err error) {
 	text := FaultText(id, occ)
 	count := func(s string) {
